@@ -3,6 +3,7 @@
 package proto
 
 import (
+	"ergo.services/ergo/gen"
 	"ergo.services/ergo/lib"
 )
 
@@ -32,8 +33,11 @@ func VerifC16Frames() {
 	r.node_maxmessagesize = lib.VerifPick("limit", 2) * 64
 	conn := &vfConn{chunks: [][]byte{data}, failAt: -1}
 	lib.VerifAllocReset()
+	lib.VerifStepBound(2000000) // <= 20 bytes of input: handling it must come back
 	r.serve(conn, nil)
 	lib.VerifYield()
+	lib.VerifStepBound(0)
+	c16WorkersDone(r)
 	lib.VerifAssert(conn.closed, "the link is closed once the stream ends or is refused")
 	lib.VerifAssert(len(core.calls) <= 1+n/8, "no more deliveries than frames received")
 	lib.VerifAssert(lib.VerifAllocMax() <= 8192+2*n, "allocations stay in proportion to the input")
@@ -59,9 +63,70 @@ func VerifC16Decompress() {
 	r, _ := vfConnection(core, "a@h", 11, 1)
 	conn := &vfConn{chunks: [][]byte{frame}, failAt: -1}
 	lib.VerifAllocReset()
+	lib.VerifStepBound(2000000) // the frame is 17 bytes: handling it must come back
 	r.serve(conn, nil)
 	lib.VerifYield()
+	lib.VerifStepBound(0)
+	c16WorkersDone(r)
 	lib.VerifAssert(len(core.calls) == 0, "a frame that does not unpack delivers nothing")
 	lib.VerifAssert(lib.VerifAllocMax() <= 65536+64*len(frame), "allocations stay in proportion to the input")
 	lib.VerifReach("compressed frame handled")
+}
+
+// VerifC16DeclaredSize: a genuine compressed frame (produced by the real sender with the real
+// lzw/zlib/gzip compressor inside the executor) whose 4-byte unpacked-size field a hostile peer has
+// rewritten: smaller than the real size (0, 1, real-1), equal, or slightly larger. The receiver's
+// real handleRecvQueue/lib.Decompress* must come back (declared step bound), deliver the
+// message only when the field is truthful, and never crash.
+func VerifC16DeclaredSize() {
+	ctype := []gen.CompressionType{gen.CompressionTypeLZW, gen.CompressionTypeZLIB, gen.CompressionTypeGZIP}[lib.VerifShard("type", 3)]
+	n := 80
+	payload := make([]byte, n)
+	for i := range payload {
+		payload[i] = byte(i * 7)
+	}
+	s, sinks := vfConnection(&vfCore{name: "a@h", creation: 11}, "b@h", 22, 1)
+	rCore := &vfCore{name: "b@h", creation: 22}
+	r, _ := vfConnection(rCore, "a@h", 11, 1)
+	opts := gen.MessageOptions{Compression: gen.Compression{Enable: true, Type: ctype, Threshold: 16}}
+	from := gen.PID{Node: "a@h", ID: 5, Creation: 11}
+	to := gen.PID{Node: "b@h", ID: 6, Creation: 22}
+	lib.VerifAssert(s.SendPID(from, to, opts, payload) == nil, "message sent")
+	if len(sinks[0].frames) != 1 {
+		return
+	}
+	f := append([]byte{}, sinks[0].frames[0]...)
+	lib.VerifAssert(f[7] == protoMessageZ, "a payload above the threshold travels compressed")
+	real := uint32(f[9])<<24 | uint32(f[10])<<16 | uint32(f[11])<<8 | uint32(f[12])
+	decl := []uint32{0, 1, real - 1, real, real + 1, real + 4096}[lib.VerifPick("declared", 6)]
+	f[9], f[10], f[11], f[12] = byte(decl>>24), byte(decl>>16), byte(decl>>8), byte(decl)
+	// the receive worker is run on this goroutine (serve would start it with `go`), so that a worker
+	// that never comes back is a hang of the harness itself, in the executor and natively alike
+	buf := lib.TakeBuffer()
+	buf.Append(f)
+	q := r.recvQueues[0]
+	q.Push(buf)
+	lib.VerifAssert(q.Lock(), "the receive queue is free")
+	lib.VerifStepBound(3000000)
+	r.handleRecvQueue(q)
+	lib.VerifStepBound(0)
+	if decl == real {
+		lib.VerifAssert(len(rCore.calls) == 1, "a truthful compressed frame is delivered")
+	} else {
+		lib.VerifAssert(len(rCore.calls) == 0, "a compressed frame whose declared size is wrong delivers nothing")
+	}
+	lib.VerifReach("declared size handled")
+}
+
+// c16WorkersDone: once the input has been consumed and everything has settled, every receive queue
+// has been released by its worker. (In the executor a worker that never finishes shows up earlier, as
+// an exceeded step bound; natively it runs on its own goroutine and is noticed here.)
+func c16WorkersDone(r *connection) {
+	for _, q := range r.recvQueues {
+		if q.Lock() {
+			q.Unlock()
+		} else {
+			lib.VerifFail("liveness: a receive worker is still busy after the input has been consumed")
+		}
+	}
 }
